@@ -1419,6 +1419,9 @@ func copyInto(dst, src reflect.Value) {
 			return
 		}
 		c := reflect.MakeSlice(src.Type(), src.Len(), src.Len())
+		if src.Len() == 0 && src.Cap() > 0 {
+			c = reflect.MakeSlice(src.Type(), 1, 1).Slice(0, 0) // an empty slice with capacity stays one
+		}
 		for i := 0; i < src.Len(); i++ {
 			copyInto(c.Index(i), src.Index(i))
 		}
@@ -1452,6 +1455,10 @@ type caseReplay struct {
 	Split []int           `json:"split,omitempty"`
 	Rows  json.RawMessage `json:"rows"`
 	Note  string          `json:"note,omitempty"`
+	// Empties: the representation of the empty strings / slices of the batch
+	// handed to the paths (empties.go): 0 literal, 1 all re-homed (zero-length
+	// substrings / slices with capacity), 2 every other one
+	Empties int `json:"empties,omitempty"`
 }
 
 // rowJSON renders one row (a pointer to it) like the replays do
@@ -1472,7 +1479,7 @@ func mkReplay(ct *cat, rows reflect.Value, split []int) caseReplay {
 	} else {
 		b, _ = json.Marshal(rows.Interface())
 	}
-	return caseReplay{Type: ct.name, Split: split, Rows: b}
+	return caseReplay{Type: ct.name, Split: split, Rows: b, Empties: emptyStyle}
 }
 
 // ---- typed codec of the replays of types with interface fields: an interface
@@ -1700,6 +1707,13 @@ var vmCases []vmCase
 // correspondence with the model.  Returns false if something was reported.
 func checkCase(c *core.Ctx, ct *cat, rows reflect.Value, split []int, wantVm bool) bool {
 	n := rows.Len()
+	// the representation of the empty strings / slices of the case (empties.go):
+	// rewritten in a private copy, the caller's batch (the replay, the key of
+	// the case, the shrinker's candidate) stays as it is
+	if emptyStyle != 0 {
+		rows = deepCopy(rows)
+		restyleEmpties(rows, emptyStyle)
+	}
 	// the reuse regime (reuse.go) runs beside the fresh-memory matrix: it has
 	// its own copies of the rows in its own backing stores
 	// pristine: a deep copy of the batch that is never handed to the library.
@@ -1906,6 +1920,22 @@ func runCase(c *core.Ctx, ct *cat, rows reflect.Value, split []int, bucket strin
 		delete(hungPaths, k)
 	}
 	h0 := hangs
+	emptyStyle = nextEmptyStyle(c)
+	defer func() { emptyStyle = 0 }()
+	{
+		var plain, homed int
+		styled := rows
+		if emptyStyle != 0 {
+			styled = deepCopy(rows)
+			restyleEmpties(styled, emptyStyle)
+		}
+		emptyCensus(styled, &plain, &homed)
+		emptyPlain, emptyHomed = emptyPlain+plain, emptyHomed+homed
+		if plain > 0 && homed > 0 {
+			emptyMixed++
+		}
+		emptyCases[emptyStyle]++
+	}
 	failed := c.Probe(func() { checkCase(c, ct, rows, split, false) })
 	if failed {
 		shrinkBudget = 400
@@ -2754,7 +2784,7 @@ func randSplit(rng *rand.Rand, n int) []int {
 // ---------------------------------------------------------------------------
 
 func runC03(c *core.Ctx) {
-	c.Res.Rule = "catalogue of 137 entries = 92 compiled struct types under SchemaOf(T) or one or more explicit schemas: (1) required / `optional` scalars of every kind, pointers, repeated and LIST slices, nested lists, slices and maps of structs, embedded and nested structs, optional groups with repeated fields and vice versa, 3 levels of nesting; (1b) depth x width of struct embedding (types_embed.go): fields promoted through 3 and through 7 levels of embedded structs (index paths of length 3, 5, 6, 7 = the lengths at which an appended []int has spare capacity), every embedded struct at offset 0 / none at offset 0, several embedded structs side by side at each level, innermost structs of 3..5 sibling fields (one type; every kind), the same embedding below a named struct, a pointer, a repeated group, a LIST, a map value and an optional group, under SchemaOf(T) and explicit schemas (equal / sorted / sorted at every depth); (2) every struct tag option of schema.go makeNodeOf: int(n)/uint(n) narrower, equal, wider and of the other signedness than the Go type, uintptr, decimal on int32/int64/[n]byte/[]byte, date/timestamp(unit[:utc|local])/time(unit) on integers, time.Time, time.Duration and their pointers, uuid on [16]byte/string, enum, string, bytes, interval on [12]byte/parquet.Interval, geometry, geography, json on strings / byte slices / structs / maps / slices / numbers / map[string]any, json.RawMessage, json.Number, variant, delta/split/dict/plain and per-field codecs, `-`, `-,`, renamed and unexported fields (holding data), id(n), `optional` on every Go kind, parquet-key/parquet-value/parquet-element tags, byte arrays of 12 sizes, *map, []*struct, maps of lists / maps / structs, lists of >1024 elements; (3) `any` fields written with an explicit schema node (leaf of each physical type required/optional/repeated/LIST/optional LIST of optional; variant; map[string]any to required/optional groups; []any and []map[string]any to repeated groups and LISTs) at top level and below optional groups, repeated groups and LISTs, []any / map[string]any / map[string]string typed fields; (4) T with an explicit schema equal to SchemaOf(T), with the fields sorted (top level / every depth), optional<->required flipped, LIST<->repeated flipped, other physical / logical types. Values are generated along the schema: every nullable site (pointer, zero-able scalar, slice, map, interface) follows, inverts or ignores a per-row (and per-element) run pattern with runs of 1..130 crossing 64-row words; batch sizes 1..200 plus one single Write call of 513..1300 rows per type (quick tier: every other type, alternating with the seed; every other of those also from reused memory); each batch goes through the fourteen ingestion paths (whole batch or split into several Write calls; the typed and the reflection buffer additionally with the rows reversed through Swap before reading; the RowBuffer additionally read column by column: the page of each column chunk cut in two with Slice, every other part cloned, read 1, 2 or 3 values at a time, its level arrays compared with the levels of its values), and every case (quick tier: the corpus, the batches of the size table and every other of the single big Write calls) a second time from REUSED CALLER MEMORY: thirteen entry points (the eleven Write / WriteRows / WriteRowValues paths of the matrix plus RowBuffer[T].WriteRows and Buffer.WriteRows of rows deconstructed from the store) are each fed, with the same calls, from one reused backing store (the same []T / []*T / []any / []Row / []Value, the same byte regions behind byte slices and strings, arrays inline, pooled nested slices, maps and pointer targets refilled in place) that is overwritten with a poison pattern as soon as each call has returned and before the next batch is laid out over it, the rows handed to WriteRows / WriteRowValues included; predicate: identical (column, value, r, d) sequences per row on every path, the streams stored from reused (and since overwritten) caller memory exactly those of the same path on fresh memory, Reconstruct(Deconstruct(v)) = v up to nil/empty where Reconstruct is lossless; correspondence: Deconstruct streams = model shred_rows (= model shred_batch) on the harness' Go-value -> model-value mapping, model asm of the streams = the value. Plus a regression batch per repaired defect, six known findings pinned on fixed inputs, and the null-run sweep: single-word patterns with <= 3 runs at every in-word offset through the typed path on optional fields of every null-index kernel, compared with the pattern and with the model's scan. A case = (type, batch, split); non-trivial = at least 2 rows; distinct by type + JSON of the batch."
+	c.Res.Rule = "catalogue of 137 entries = 92 compiled struct types under SchemaOf(T) or one or more explicit schemas: (1) required / `optional` scalars of every kind, pointers, repeated and LIST slices, nested lists, slices and maps of structs, embedded and nested structs, optional groups with repeated fields and vice versa, 3 levels of nesting; (1b) depth x width of struct embedding (types_embed.go): fields promoted through 3 and through 7 levels of embedded structs (index paths of length 3, 5, 6, 7 = the lengths at which an appended []int has spare capacity), every embedded struct at offset 0 / none at offset 0, several embedded structs side by side at each level, innermost structs of 3..5 sibling fields (one type; every kind), the same embedding below a named struct, a pointer, a repeated group, a LIST, a map value and an optional group, under SchemaOf(T) and explicit schemas (equal / sorted / sorted at every depth); (2) every struct tag option of schema.go makeNodeOf: int(n)/uint(n) narrower, equal, wider and of the other signedness than the Go type, uintptr, decimal on int32/int64/[n]byte/[]byte, date/timestamp(unit[:utc|local])/time(unit) on integers, time.Time, time.Duration and their pointers, uuid on [16]byte/string, enum, string, bytes, interval on [12]byte/parquet.Interval, geometry, geography, json on strings / byte slices / structs / maps / slices / numbers / map[string]any, json.RawMessage, json.Number, variant, delta/split/dict/plain and per-field codecs, `-`, `-,`, renamed and unexported fields (holding data), id(n), `optional` on every Go kind, parquet-key/parquet-value/parquet-element tags, byte arrays of 12 sizes, *map, []*struct, maps of lists / maps / structs, lists of >1024 elements; (3) `any` fields written with an explicit schema node (leaf of each physical type required/optional/repeated/LIST/optional LIST of optional; variant; map[string]any to required/optional groups; []any and []map[string]any to repeated groups and LISTs) at top level and below optional groups, repeated groups and LISTs, []any / map[string]any / map[string]string typed fields; (4) T with an explicit schema equal to SchemaOf(T), with the fields sorted (top level / every depth), optional<->required flipped, LIST<->repeated flipped, other physical / logical types. Values are generated along the schema: every nullable site (pointer, zero-able scalar, slice, map, interface) follows, inverts or ignores a per-row (and per-element) run pattern with runs of 1..130 crossing 64-row words; every case is written in one of three REPRESENTATIONS OF ITS EMPTY VALUES (empties.go; the style is part of the replay): as generated (the literal \"\" with a nil data pointer, make(T, 0)), every empty string and empty non-nil slice re-homed (zero-length substrings s[:0] / s[k:k] / s[len(s):] of a longer string, i.e. a string header with a data pointer and length 0; a[:0] / a[k:k] of a longer array, i.e. capacity > 0) in struct fields, pointer targets, list elements, map values and values held by interfaces, or every other one re-homed (both side by side in one column); the reuse regime lays such strings over its reused bytes with unsafe.String(p, 0) and keeps the capacity of such slices; the expected streams are computed from the Go VALUES and do not depend on the representation; batch sizes 1..200 plus one single Write call of 513..1300 rows per type (quick tier: every other type, alternating with the seed; every other of those also from reused memory); each batch goes through the fourteen ingestion paths (whole batch or split into several Write calls; the typed and the reflection buffer additionally with the rows reversed through Swap before reading; the RowBuffer additionally read column by column: the page of each column chunk cut in two with Slice, every other part cloned, read 1, 2 or 3 values at a time, its level arrays compared with the levels of its values), and every case (quick tier: the corpus, the batches of the size table and every other of the single big Write calls) a second time from REUSED CALLER MEMORY: thirteen entry points (the eleven Write / WriteRows / WriteRowValues paths of the matrix plus RowBuffer[T].WriteRows and Buffer.WriteRows of rows deconstructed from the store) are each fed, with the same calls, from one reused backing store (the same []T / []*T / []any / []Row / []Value, the same byte regions behind byte slices and strings, arrays inline, pooled nested slices, maps and pointer targets refilled in place) that is overwritten with a poison pattern as soon as each call has returned and before the next batch is laid out over it, the rows handed to WriteRows / WriteRowValues included; predicate: identical (column, value, r, d) sequences per row on every path, the streams stored from reused (and since overwritten) caller memory exactly those of the same path on fresh memory, Reconstruct(Deconstruct(v)) = v up to nil/empty where Reconstruct is lossless; correspondence: Deconstruct streams = model shred_rows (= model shred_batch) on the harness' Go-value -> model-value mapping, model asm of the streams = the value. Plus a regression batch per repaired defect, six known findings pinned on fixed inputs, and the null-run sweep: single-word patterns with <= 3 runs at every in-word offset through the typed path on optional fields of every null-index kernel, compared with the pattern and with the model's scan. A case = (type, batch, split); non-trivial = at least 2 rows; distinct by type + JSON of the batch."
 	t0 := time.Now()
 	debug.SetGCPercent(400)                    // the writers allocate their page buffers anew for every case
 	if pf := os.Getenv("C03_PROF"); pf != "" { // debugging aid
@@ -2869,6 +2899,7 @@ func runC03(c *core.Ctx) {
 			fmt.Fprintf(os.Stderr, "TIME %-28s %6.2fs\n", ct.name, time.Since(tType).Seconds())
 		}
 	}
+	c.Note("representation of empty values: %d cases as generated (literal \"\", make(T, 0)), %d with every empty string / empty non-nil slice re-homed (zero-length substring s[:0] / s[k:k] / s[len(s):] of a longer string, a[:0] / a[k:k] of a longer array), %d with every other one re-homed; %d empty strings written with a nil data pointer, %d with a data pointer, %d cases held both", emptyCases[0], emptyCases[1], emptyCases[2], emptyPlain, emptyHomed, emptyMixed)
 	c.Note("%d cases were also written from reused caller memory (13 entry points each, poisoned after every call) and compared with the fresh-memory streams", reuseCases)
 	if !c.Quick() {
 		c.Note("every batch size 1..200 for every catalogue type (%d types), and single Write calls of 513, 600, 1025, 1100 and 1300 rows", len(cats))
@@ -2933,6 +2964,7 @@ func replayC03(c *core.Ctx, raw json.RawMessage) {
 				c.Note("replay rows do not decode: %v", err)
 				return
 			}
+			emptyStyle = r.Empties
 			checkCase(c, ct, rows.Elem(), r.Split, false)
 			c.Case("replay", ct.name+string(r.Rows), true)
 			return
